@@ -10,9 +10,10 @@ EXTENDS XzFile
 ValidStreamHeader(S) == S.hmagic /\ S.hvers /\ S.hcrc
 (* 5.3 filters supported here, with the property sizes they define (5.3.1 - 5.3.3) *)
 ValidFilterFlags(f) ==
-    \/ f.id = "lzma2" /\ f.plen = 1 /\ f.pok               \* one byte, dictionary size 0..40
-    \/ f.id = "delta" /\ f.plen = 1                        \* one byte, distance - 1
-    \/ f.id \in Bcj /\ f.plen \in {0, 4} /\ f.pok          \* optional start offset, aligned
+    /\ f.idv = "ok" /\ f.psv = "ok"                        \* 1.2: integers use the minimal encoding, at most nine bytes
+    /\ \/ f.id = "lzma2" /\ f.plen = 1 /\ f.pok               \* one byte, dictionary size 0..40
+       \/ f.id = "delta" /\ f.plen = 1                        \* one byte, distance - 1
+       \/ f.id \in Bcj /\ f.plen \in {0, 4} /\ f.pok          \* optional start offset, aligned
 (* 3.1.2: 1-4 filters; 5.3: LZMA2 only as the last filter, delta / BCJ only as non-last filters *)
 ValidChain(fs) == /\ Len(fs) \in 1..4
                   /\ \A k \in 1..Len(fs) : ValidFilterFlags(fs[k])
@@ -32,21 +33,21 @@ ValidBlockHeader(T) ==
 ValidBlock(T, check, verify) ==
     /\ ValidBlockHeader(T)
     /\ L2Valid(T.chunks) /\ EndIndex(T.chunks) = Len(T.chunks)       \* 3.2 Compressed Data is one LZMA2 stream
-    /\ T.cs.p => T.cs.v = DataReal(T)
-    /\ T.us.p => T.us.v = DataOut(T)
+    /\ T.cs.p => (T.cs.v = DataReal(T) /\ T.cs.big = "")
+    /\ T.us.p => (T.us.v = DataOut(T) /\ T.us.big = "")
     /\ BlockPadLen(T) > 0 => T.bpadz                                 \* 3.3
     /\ (verify /\ CheckSupported(check) /\ CheckSize(check) > 0) => T.chk     \* 3.4 (verified when the type is supported)
 (* 4 Index: one Record per Block, in order, with the Blocks' real sizes *)
 ValidIndex(T) ==
     /\ T.ivli
-    /\ T.icount = Len(T.blocks) /\ Len(T.irecs) = Len(T.blocks)      \* 4.2
+    /\ T.icount = Len(T.blocks) /\ T.icb = "" /\ Len(T.irecs) = Len(T.blocks)      \* 4.2
     /\ \A k \in 1..Len(T.blocks) :                                   \* 4.3
-          T.irecs[k] = [u |-> Unpadded(T.blocks[k], T.check), n |-> DataOut(T.blocks[k])]
-    /\ Pad4(IndexBody(T)) > 0 => T.ipadz                             \* 4.4
+          T.irecs[k] = Rec(Unpadded(T.blocks[k], T.check), DataOut(T.blocks[k]))
+    /\ IndexPad(T) > 0 => T.ipadz                             \* 4.4
     /\ T.icrc                                                        \* 4.5
 (* 2.1.2 Stream Footer *)
 ValidStreamFooter(T) == /\ T.fcrc /\ T.fmagic /\ T.fvers
-                        /\ T.fbs = IndexReal(T)                      \* 2.1.2.2 Backward Size
+                        /\ T.fbs = IndexRealMin(T) /\ T.fbb = ""        \* 2.1.2.2 Backward Size
                         /\ T.fcheck = T.check                        \* 2.1.2.3 identical Stream Flags
 ValidStream(T, verify) == /\ ValidStreamHeader(T)
                           /\ \A k \in 1..Len(T.blocks) : ValidBlock(T.blocks[k], T.check, verify)
